@@ -2,6 +2,7 @@ import T4V.Proofs.PostClosed
 import T4V.Proofs.CompileClosed
 import T4V.Proofs.Optimise
 import T4V.Proofs.WriteRead
+import T4V.Proofs.Composition
 /-!
 # Property C08 — structural validity of the written file (the clauses that are logic of the model)
 -/
@@ -106,5 +107,58 @@ complaint — for every composition name and every list of volume numbers -/
 theorem geomcomp_line_roundtrip (name : String) (ids : List Nat) :
     gcLine name (toString ids.length) (ids.map toString) = (some (name, ids.length, ids), []) := by
   simp only [gcLine, WR.natItems_ids, WR.toNat_toString]
+
+/-! ### the COMPOSITION block (writer model `Model/Composition.lean`, reader `Spec/T4.lean`) -/
+open T4V.CM T4V.CMP
+
+/-- **every declared nuclide count equals the number of nuclide lines that follow**: whatever the material cards and
+the cells are, the reader — splitting the text of each written line into words — finds after every composition header
+exactly as many nuclide lines as the header declares, and none are left over at END_COMPOSITION.  The hypotheses only
+say that the tokens of the cards and the density literals contain no white space (they come out of `str.split()`). -/
+theorem composition_counts_fit (cards : List (Nat × List (List Char))) (cells : List CCell) (lines : List String)
+    (hc : ∀ e ∈ cards, ∀ t ∈ e.2, ∀ c ∈ t, CC.cws c = false) (hd : ∀ c ∈ cells, TokL c.density)
+    (h : CM.run cards cells = .ok lines) :
+    compCountRun 0 (lines.map words ++ [["END_COMPOSITION"]]) = some 0 :=
+  block_reads_back cards cells lines hc hd h
+
+/-- a header line of the block: POINT_WISE / DENSITY followed by at least three more words -/
+def isCompHeader (ws : List String) : Bool :=
+  (ws.head? == some "POINT_WISE" || ws.head? == some "DENSITY") && decide (4 ≤ ws.length)
+
+theorem headers_of_comp (c : Comp) : ((compWordLines c).filter isCompHeader).length = 1 := by
+  unfold compWordLines
+  have h1 : isCompHeader (headerWords c) = true := by
+    unfold headerWords isCompHeader
+    by_cases hk : (c.kind == "POINT_WISE") = true
+    · simp [hk]
+    · by_cases hn : c.nbAtom = true <;> simp [hk, hn]
+  have h2 : ∀ l : List (String × List Char), (l.map fun (p : String × List Char) => [p.1, String.ofList p.2]).filter isCompHeader = [] := by
+    intro l
+    induction l with
+    | nil => rfl
+    | cons p r ih => simp [List.filter_cons, isCompHeader, ih]
+  rw [List.filter_cons, if_pos h1, List.length_cons]
+  by_cases he : c.isotopes.isEmpty = true
+  · rw [if_pos he]; rfl
+  · rw [if_neg he]
+    rw [h2 c.isotopes]; rfl
+
+theorem headers_of_comps : ∀ cs : List Comp, ((cs.flatMap compWordLines).filter isCompHeader).length = cs.length
+  | [] => rfl
+  | c :: cs => by
+    simp only [List.flatMap_cons, List.filter_append, List.length_append, headers_of_comp, headers_of_comps cs,
+      List.length_cons]
+    omega
+
+/-- **the COMPOSITION count equals the number of compositions written** (the converted ones and the void
+composition `m0`) -/
+theorem composition_count_line (mats : List (Nat × List Comp)) :
+    ∃ rest, blockWordLines mats = [toString ((rest.filter isCompHeader).length)] :: rest := by
+  refine ⟨(mats.flatMap (·.2)).flatMap compWordLines ++ [["POINT_WISE", "300", "m0", "1"], ["HE4", "1E-30"], []], ?_⟩
+  unfold blockWordLines
+  simp only
+  congr 2
+  rw [List.filter_append, List.length_append, headers_of_comps]
+  rfl
 
 end T4V.C08
